@@ -104,7 +104,7 @@ def all_framers(house):
 
 
 def run_text(text, period=0.125, maxticks=64, watch=(), boom=None, build_only=False,
-             real=False, tick_hook=None, proxies=True, keep=None, behaviors=None, post=False, stamp=0.0):
+             real=False, tick_hook=None, proxies=True, keep=None, behaviors=None, post=False, stamp=0.0, rerun=False):
     """Build and run `text`.  Returns a Result with
        .built, .build_error, .trace (recorder events), .sends, .ticks (snapshots
        at each changeStamp call), .exc (exception leaving run()), .capped, .skedder"""
@@ -227,6 +227,24 @@ def run_text(text, period=0.125, maxticks=64, watch=(), boom=None, build_only=Fa
     skedding.console = ConsoleSpy(real_console)
     try:
         sk.run()
+        if rerun:
+            # the same skedder is run a second time after its taskers were restarted with remake(), as Skedder.run's
+            # doc string asks; `res` then describes the second run, res.first keeps the counts of the first
+            res.first = {"sends": list(res.sends), "nticks": state["tick"], "presweep": res.presweep, "capped": res.capped}
+            if not res.capped:
+                del res.sends[:]
+                del res.ticks[:]
+                recorder.reset(watch=watch, store=house0.store, boom=None,
+                               framers=[f for f in house0.framers if f.schedule in (AUX, SLAVE)] if post else None)
+                state.update(tick=0, pos=0, depth=0, sweep=False)
+                res.presweep, res.exit_reason = None, None
+                for house in sk.houses:
+                    for t in house.taskers:
+                        t.remake()
+                        if proxies:
+                            t.runner = RunnerProxy(t, res.sends, state)
+                res.reran = True
+                sk.run()
     except BaseException as e:
         if isinstance(e, core.Watchdog):
             raise
